@@ -507,8 +507,15 @@ class Ghost:
             creat = "c" in flags or "n" in flags
             if k is None and creat and st[3] in self.gone:
                 out.append("RecreateAny")
-            if k is None and creat and self.leaves_bytes(dur, st[3]):
-                out.append("Recreate")
+            truncating = False
+            if "t" in flags and "w" in flags:
+                try:
+                    Posix.open_mode(flags)
+                    truncating = "n" not in flags
+                except Err:
+                    pass
+            if k is None and creat and self.leaves_bytes(dur, st[3]) and not truncating:
+                out.append("Recreate")          # (a) (b): a truncating creation hides what the old file left
             if k is None and creat and self.under_rename(st[3]) and "t" in flags and "w" in flags:
                 try:
                     Posix.open_mode(flags)
@@ -529,7 +536,7 @@ class Ghost:
             k = fs.kind(st[2])
             if k is None and st[2] in self.gone:
                 out.append("RecreateAny")
-            if k is None and (self.leaves_bytes(dur, st[2]) or self.under_rename(st[2])):
+            if k is None and self.under_rename(st[2]):
                 out.append("Recreate")
             if k is None and st[2] in self.unflushed and st[3] and coin:
                 out.append("Recreate")
@@ -1532,9 +1539,11 @@ def recreate_scenarios(rng, crash=True):
                 st.append(["dump", 0])
             out.append({"cfg": base_cfg(rng, 1), "steps": st, "flavour": "recreate-scenario"})
             # a regular file
-            for old_data, old_synced, new_data, new_synced in itertools.product((False, True), (False, True), (False, True),
-                                                                                (False, True)):
+            for old_data, old_synced, new_data, new_synced, how in itertools.product(
+                    (False, True), (False, True), (False, True), (False, True), ("rwc", "rwct", "spit")):
                 if (old_synced and not old_data) or (new_synced and not new_data):
+                    continue
+                if how == "spit" and (new_synced or not new_data):
                     continue
                 st = list(base) + [["open", 0, 1, x, "rwc"]]
                 if old_data:
@@ -1547,12 +1556,15 @@ def recreate_scenarios(rng, crash=True):
                 st.append(["unlink", 0, x])
                 if flushed:
                     st.append(["sync_dir", 0, par])
-                st.append(["open", 0, 2, x, "rwc"])
-                if new_data:
-                    st.append(["write_at", 0, 2, 0, rand_bytes(rng)])
-                if new_synced:
-                    st.append(["sync_all", 0, 2])
-                st.append(["close", 0, 2])
+                if how == "spit":
+                    st.append(["spit", 0, x, rand_bytes(rng)])
+                else:
+                    st.append(["open", 0, 2, x, how])
+                    if new_data:
+                        st.append(["write_at", 0, 2, 0, rand_bytes(rng)])
+                    if new_synced:
+                        st.append(["sync_all", 0, 2])
+                    st.append(["close", 0, 2])
                 st += [["sync_dir", 0, par]] * nsync
                 if look:
                     st.append(["dump", 0])
@@ -1561,4 +1573,26 @@ def recreate_scenarios(rng, crash=True):
                 elif not look:
                     st.append(["dump", 0])
                 out.append({"cfg": base_cfg(rng, 1), "steps": st, "flavour": "recreate-scenario"})
+    return out
+
+
+def torn_scenarios(rng):
+    """Exhaustive small family for torn writes: a durable file with data-synced contents of
+    length L, one or two unsynced writes (inside, at the end, across the end of the synced
+    contents), block size 2 or 3, several rng seeds, then a crash and a dump."""
+    out = []
+    for L in (3, 5, 6):
+        base = [["open", 0, 1, "/a", "rwc"], ["write_at", 0, 1, 0, [65 + k for k in range(L)]], ["sync_all", 0, 1],
+                ["sync_dir", 0, "/"]]
+        writes = [(0, 1), (0, 2), (1, 2), (2, 2), (0, L), (L - 1, 3), (L, 2)]
+        for bs in (2, 3):
+            for off, n in writes:
+                for second in (None, (1, 1), (0, 3)):
+                    st = list(base) + [["write_at", 0, 1, off, [88 + k for k in range(n)]]]
+                    if second:
+                        st.append(["write_at", 0, 1, second[0], [48 + k for k in range(second[1])]])
+                    st += [["crash", 0], ["dump", 0]]
+                    cfg = base_cfg(rng, 1)
+                    cfg["block_size"] = bs
+                    out.append({"cfg": cfg, "steps": st, "flavour": "torn-scenario"})
     return out
